@@ -340,6 +340,10 @@ def classify_exception(e):
     return FP
   if isinstance(e, ValueError):
     return INVALID
+  if type(e) is KeyError:  # pylint: disable=unidiomatic-typecheck
+    # base class of the datastore's NotFoundError (e.g. RAM create_trial on a
+    # study deleted a moment ago)
+    return NOT_FOUND
   return CRASH
 
 
